@@ -221,13 +221,23 @@ theorem uPartitionSame_eq_spec (F : Fns) (hb : F.bias = 0) (w : Wall) (m : Model
 /-! ## ground (EN ISO 13370) -/
 
 /-- `uSlab_eq_spec`: the slab branch is the EN ISO 13370 formula with B' = characteristic dimension -/
-theorem uSlab_eq_spec (F : Fns) (hb : F.bias = 0) (z dt bp psi : Rat) :
+theorem uSlab_eq_spec (F : Fns) (hb : F.bias = 0) (z dt bp psi : Rat) (hbp : 0 < bp) :
     (uGndSlab F z dt bp psi).v = round2 (uSlab F bp dt z psi) := by
-  simp only [uGndSlab, uSlab, Fns.r2_unbiased F hb, LAMBDA_GND]
+  have hpos : bp > 0 := hbp
+  simp only [uGndSlab, uSlab, Fns.r2_unbiased F hb, LAMBDA_GND, hpos, if_true]
   congr 1
   by_cases h : dt + z / 2 < bp
   · simp only [h, if_true]; congr 2; ring_nf
   · simp only [h, if_false]
+
+/-- a slab without characteristic dimension (null area): the perimeter-insulation term is dropped, the result is finite -/
+theorem uSlab_no_dimension (F : Fns) (z dt psi : Rat) (hB : 0 < dt + z / 2) :
+    (uGndSlab F z dt 0 psi).nf = false ∧ (uGndSlab F z dt 0 psi).v = F.r2 (LAMBDA_GND / (dt + z / 2)) := by
+  have h1 : ¬ (dt + z / 2 < 0) := by linarith
+  have h0 : ¬ (dt + z / 2 = 0) := by intro h; rw [h] at hB; exact absurd hB (by decide)
+  constructor
+  · simp [uGndSlab, h1, h0]
+  · simp [uGndSlab, h1]
 
 /-- `uBasementWall_eq_spec`: fully buried wall (no part above ground) -/
 theorem uBasementWall_eq_spec (F : Fns) (hb : F.bias = 0) (z uw dt hNet : Rat)
